@@ -258,11 +258,11 @@ impl PollSys {
         let mut v = Vec::new();
         'outer: for it in 0..reps {
             for op in cycle {
-                let r = match op {
+                let r = xs::report::with_details(|| match op {
                     PumpOp::Cc(c, val) => self.feed_core(&cur, 0xB0 | self.ch, *c, *val),
                     PumpOp::Poll => self.do_poll(&cur),
                     PumpOp::Tick => Step { strict: false, next: Some(PoState { sc: cur.sc, now: cur.now + 1, ob: cur.ob }), obs: 0, violations: Vec::new() },
-                };
+                });
                 if !r.violations.is_empty() {
                     for mut x in r.violations {
                         x.signature = format!("{}/pumped", x.signature);
